@@ -86,8 +86,9 @@ def model_from_spec(spec):
     return {"atoms": atoms, "terms": terms, "cell": None if spec["cell"] is None else [list(map(float, r)) for r in spec["cell"]]}
 
 
-def resolve(a, what="object"):
-    """resolved view of a real Atoms object; raises Violation('inconsistent-object') when arrays disagree"""
+def resolve(a, what="object", tags=None):
+    """resolved view of a real Atoms object; raises Violation('inconsistent-object') when arrays disagree.
+    tags: optional identity tag per atom index (default: the atom's charge)"""
     def bad(msg):
         raise Violation("inconsistent-object", "%s: %s" % (what, msg))
     N = len(a.positions)
@@ -107,7 +108,7 @@ def resolve(a, what="object"):
             bad("atom %d has type id %d but there are %d labels / %d elements / %d masses" % (i, t, len(labels), len(els), len(masses)))
         if pair and t >= len(pair):
             bad("atom %d has type id %d but the pair-coefficient table has %d rows" % (i, t, len(pair)))
-        atoms.append({"tag": round(float(a.charges[i]), 9), "pos": [float(x) for x in a.positions[i]],
+        atoms.append({"tag": round(float(a.charges[i]), 9) if tags is None else tags[i], "pos": [float(x) for x in a.positions[i]],
                       "label": str(labels[t]), "el": str(els[t]), "mass": float(masses[t]),
                       "pair": norm_pair(pair[t]) if pair else None,
                       "charge": float(a.charges[i]), "group": int(a.groups[i]),
@@ -153,15 +154,16 @@ def resolve(a, what="object"):
 
 def canon_tags(tags):
     t = tuple(tags)
-    return min(t, t[::-1])
+    r = t[::-1]
+    return t if repr(t) <= repr(r) else r
 
 
 def compare_atoms(got, want, what, pos_tol=1e-9, ordered=True, fields=("label", "el", "mass", "pair", "charge", "group", "extra")):
     if len(got) != len(want):
         raise Violation("atom-count", "%s: %d atoms, expected %d" % (what, len(got), len(want)))
     if not ordered:
-        got = sorted(got, key=lambda r: r["tag"])
-        want = sorted(want, key=lambda r: r["tag"])
+        got = sorted(got, key=lambda r: repr(r["tag"]))
+        want = sorted(want, key=lambda r: repr(r["tag"]))
     for i, (g, w) in enumerate(zip(got, want)):
         if g["tag"] != w["tag"]:
             raise Violation("atom-order", "%s: atom %d is the atom tagged %r, expected the one tagged %r (order of atoms: %r, "
@@ -214,7 +216,7 @@ def _untyped_classes(terms):
     for t in terms:
         c = t["coeff"]
         if isinstance(c, tuple) and len(c) == 2 and c[0] == "untyped":
-            key = canon_tags(t["tags"])
+            key = repr(canon_tags(t["tags"]))
             if c[1] not in firsts or key < firsts[c[1]]:
                 firsts[c[1]] = key
     order = {tid: n for n, tid in enumerate(sorted(firsts, key=lambda x: firsts[x]))}
